@@ -384,7 +384,17 @@ def b_reversed(eng, st, a, kw):
     return SeqV(seq.n, lambda i: seq.at(seq.n - 1 - i), "gen")
 
 
+def b_iter(eng, st, a, kw):
+    seq = eng.as_seq(a[0], st)
+    return ObjV("iterator", {"seq": seq, "pos": IntV(0), "views": []})
+
+
 def b_islice(eng, st, a, kw):
+    if isinstance(a[0], ObjV) and a[0].cls == "iterator":
+        if len(a) != 2 or isinstance(a[1], NoneV):
+            raise Unsupported("islice(iterator, start, stop)")
+        eng.emit("islice-nonneg", st, Z(a[1]) >= 0)
+        return eng.iterator_take(a[0], a[1])
     seq = eng.as_seq(a[0], st)
     n = seq.n
 
@@ -410,6 +420,15 @@ def b_islice(eng, st, a, kw):
 
 def b_chain(eng, st, a, kw):
     seqs = [eng.as_seq(x, st) for x in a]
+    tags = [s_.meta.get("lazy_tag") for s_ in seqs if isinstance(s_, SeqV) and s_.meta.get("lazy_tag") is not None]
+    if tags:
+        # views of a stateful iterator: all of them, once each, in creation order
+        its = {t[0] for t in tags}
+        if len(its) != 1 or [t[1] for t in tags] != list(range(len(tags))):
+            raise Unsupported("views of a stateful iterator are not consumed in creation order")
+        owner = [v_ for v_ in st.env.values() if isinstance(v_, ObjV) and v_.cls == "iterator" and id(v_) in its]
+        if not owner or len(owner[0].fields["views"]) != len(tags):
+            raise Unsupported("a view of the stateful iterator is consumed outside this chain")
     total = seqs[0].n
     for s in seqs[1:]:
         total = total + s.n
@@ -736,6 +755,7 @@ SIMPLE = {
     "collections.deque": b_deque,
     "deque": b_deque,
     "len": b_len,
+    "iter": b_iter,
     "range": b_range,
     "enumerate": b_enumerate,
     "tee": b_tee,
